@@ -26,6 +26,11 @@ def gen_scenario(rng, idx):
         p = rng.choice(sorted(files))
         if k < 0.2:
             items.append(["W", p, rng.choice(CONTENT).hex()])               # user edit (tracked: uncommitted change)
+            if p in tracked and rng.random() < 0.4:
+                # ... of a path xvc materialised as a link: the edit replaced the link by a regular file; moving
+                # or copying it now must be refused (uncommitted changes)
+                items.append(rng.choice([["move", {"as": None, "nr": False, "cwd": None}, p, rng.choice(["ed-moved.txt", "d/ed-moved.txt"])],
+                                         ["copy", {"nr": False, "cwd": None}, p, "ed-copied.txt"]]))
         elif k < 0.27:
             items.append(["D", p])
         elif k < 0.37:
@@ -33,7 +38,21 @@ def gen_scenario(rng, idx):
         elif k < 0.47:
             items.append(["carry", {}, [rng.choice(tracked)]])
         elif k < 0.57:
-            items.append(["track", {"m": rng.choice([None, method]), "nc": rng.random() < 0.3}, [p]])
+            nc = rng.random() < 0.35
+            items.append(["track", {"m": rng.choice([None, method]), "nc": nc}, [p]])
+            if p not in tracked:
+                tracked.append(p)
+            if nc and rng.random() < 0.6:
+                # recorded but never carried in: no cache object.  A recheck that changes the method, or a move
+                # that re-links, must not take the only copy away
+                items.append(rng.choice([["recheck", {"m": rng.choice(["symlink", "hardlink", "copy"])}, [p]],
+                                         ["move", {"as": rng.choice(["symlink", "hardlink", None]), "nr": rng.random() < 0.2, "cwd": None}, p, rng.choice(["nc-moved.txt", "d/nc-moved.txt"])]]))
+        elif k < 0.6:
+            # the object is removed from the cache on purpose (`file remove` is exempt from the property); what
+            # the NEXT commands do to the workspace copy is not
+            q = rng.choice(tracked)
+            items.append(["remove-cache", {}, [q]])
+            items.append(["recheck", {"m": rng.choice(["symlink", "hardlink", "copy"])}, [q]])
         elif k < 0.72:
             s = rng.choice(tracked)
             d = rng.choice(sorted(files) + ["new.txt", "d/new.txt", "o/", "d/"])     # existing (tracked or not) or new destinations
@@ -103,6 +122,8 @@ def run_scenario(xvc, sc):
                 dest_of[it[2]] = (it[3] + it[2]) if it[3].endswith("/") else it[3]
             elif k == "untrack":
                 args = ["file", "untrack"] + it[2]
+            elif k == "remove-cache":
+                args = ["file", "remove", "--from-cache"] + it[2]
             else:
                 args = ["file", "list", "--no-summary"]
             cwd = None
@@ -115,6 +136,8 @@ def run_scenario(xvc, sc):
             out["cmds"] += 1; out["kinds"][k] = out["kinds"].get(k, 0) + 1
             out["refused"] += 1 if r.failed and not r.panicked else 0
             after = reach(rp.root)
+            if k == "remove-cache":
+                continue
             obs = R.observe_real(rp.root, "Ok")
             cache_bytes_for = {}
             # "in the cache under the digest xvc records for that path": any object in the directory of that
